@@ -41,6 +41,18 @@ CLAIMS["C34"] = dict(
     technique=TECH,
 )
 
+CLAIMS["C15"] = dict(
+    category="proof",
+    text="struct_cmp (the comparator behind compare/3, @<, @=<, @>, @>=, sort/2) is proved equal to a reference "
+         "standard order std_cmp written from the property text (Var < Number < String < Atom < Compound; exact "
+         "numeric values, float before equal int; names without quotes; arity, name, arguments) for all terms of an "
+         "algebraic Term datatype, including the recursion over arguments (loop invariant over lexcmp); the four "
+         "@-comparison wrappers are proved against it. compare/3 and sort/2 themselves (mode check, list building, "
+         "sorted()/dedupe) are bounded stand-ins: their contracts are evaluated at run time on generated terms.",
+    design_ref="DESIGN.md section 2, C15",
+    technique=TECH,
+)
+
 NA = {
     "C22": "convergence of sample frequencies is a statistical limit, not a pre/post-condition of any call; a "
            "Hoeffding test would be statistical testing, a different technique family",
